@@ -783,6 +783,7 @@ def main(argv):
     wide_hist = {}
     f25_hits = 0
     f25_example = None
+    f25_texts = set()
     over_seen = 0
     for j, ((t, cls), ro) in enumerate(zip(lits, lit_out)):
         mo = model[o1 + j]
@@ -814,6 +815,7 @@ def main(argv):
             over_seen += 1
             if still_f25:
                 f25_hits += 1
+                f25_texts.add(t)
                 f25_example = f25_example or t
             elif ro != hx16(ref):
                 lit_fail.append((t, ro, hx16(ref), "a hexadecimal/binary literal >= 2^63 does not denote its value "
@@ -900,7 +902,7 @@ def main(argv):
     # by the independent Python reference on the way in and by Python's correctly rounded float() on the way out
     cli_lit_checked = 0
     docl = [(t, py_literal_value(t)) for t, cls in lits if cls in ("doc", "corpus")]
-    docl = [(t, r) for t, r in docl if isinstance(r, int) and is_finite_bits(r) and (radixfix or not radix_over(t))
+    docl = [(t, r) for t, r in docl if isinstance(r, int) and is_finite_bits(r) and (radixfix or not radix_over(t)) and t not in f25_texts
             and len(t) <= 100]      # one argv string holds the whole list (128 KB limit per argument)
     n_cli_lit = min(len(docl), 600 if quick else 6000)
     docl = docl[:n_cli_lit]
